@@ -51,8 +51,8 @@ Full statement / proved / missing
   `C12_dep_queries`, `C12_dep_other`, `C12_dep_wf_run`, `C12_dep_discover` — everything else is the plain model;
   `C12_dep_miss_then_define_partial` — miss, then definition in the dependency loader: resolvable.                  proved
   FULL statement `C12_dep_load_full` (a lookup answers what the dependencies bind whenever the dependency loader holds no
-  value, in every reachable state) is FALSE: `C12_dep_miss_sticky` (known finding C12-dependency-miss-sticky); its proved
-  part in the same shape is `C12_dep_load_partial` (no ENTRY instead of no value); so is
+  value, in every reachable state) HOLDS since fix 9d272bd: `C12_dep_load_full_holds`, `C12_dep_load_unbound`,
+  `C12_dep_miss_then_define` (misses are not sticky); pre-fix witness `C12_dep_miss_sticky_before_fix`.  FALSE is
   "discovery = union over the dependencies" (`C12_dep_discover_union_full`, `C12_dep_discover_unloaded`).
 * letter case: `lower` is Go's `strings.ToLower` (`unicode.ToLower` over the case table regenerated from $GOROOT; idempotent
   by `toLower_idem` + `caseRanges_lowerOK`), so `C12_case` / `C12_case_ops` speak about the real folding.  The typed name as
@@ -60,8 +60,9 @@ Full statement / proved / missing
   `Child()`/`Parent()` from a name without cached key has the right key.                                            proved
   `C12_key_derived_lenstable_partial`, `C12_key_derived_ascii` — with a cached key too, when lower-casing keeps the UTF-8
   length of every letter.                                                                                            proved
-  FULL statement `C12_key_derived_full` (every name, cached key or not) is FALSE: `C12_key_derived_wrong`,
-  `C12_key_derived_fault` (known finding C12-typedname-derived-key).
+  FULL statement `C12_key_derived_full` (every name, cached key or not) HOLDS since fix 50062c5: `C12_key_derived`,
+  `C12_key_derived_any`; pre-fix: `C12_key_derived_lenstable_before_fix`, witnesses `C12_key_derived_wrong_before_fix`,
+  `C12_key_derived_fault_before_fix`.
 * the global level (`Model/LoaderStatic.lean`): `C12_define_ancestor_after_miss` — after a miss a definition in any loader
   of the chain, the static root included, makes the name resolve to that value; `ResolveResolvables` = the definitions of
   the declared types in order, ended by the first rejection: `C12_rr_loop`, `C12_rr_ok`, `C12_rr_queue`,
@@ -355,11 +356,12 @@ theorem C12_dep_load_refines (dps : List (Option Mods)) (s : Sys) (l d : Nat) (m
   loadD_root dps s l d mods n hc hlen ha (depLoadEntry_ne_bad s d mods n hp)
 
 /-- what the lazy binding binds: the name asked for, in the dependency loader, to what the dependencies bind — and only
-    if the dependency loader held no entry for it; every other binding of every loader is as before -/
+    if the dependency loader held no VALUE for it (a recorded miss does not stand in the way: fix 9d272bd); every other
+    binding of every loader is as before -/
 theorem C12_dep_fill (dps : List (Option Mods)) (s : Sys) (l d : Nat) (mods : Mods) (n : Name)
     (hc : DepChain dps (chain s.ps l) d mods) (hlen : d < s.es.length) (hp : PartsOK mods n) (l' : Nat) (k' : Key) :
     bound (fillD dps s l n) l' k' =
-      if l' = d ∧ k' = canon n ∧ lk (canon n) (s.ents d) = none then depSpec s mods n else bound s l' k' := by
+      if l' = d ∧ k' = canon n ∧ bound s d (canon n) = none then depSpec s mods n else bound s l' k' := by
   rw [fillD_eq dps s l d mods n hc hlen]
   exact depLoadEntry_bound s d mods n hlen hp l' k'
 
@@ -377,11 +379,12 @@ theorem depChain_root (dps : List (Option Mods)) (s : Sys) (d : Nat) (mods : Mod
   rw [chain_root s.ps d hr]
   exact ⟨rfl, by simp, hd⟩
 
-/-- the FIRST lookup of a name through the dependency loader itself answers the binding of the first loader in dependency
-    order that binds the name (the named module for a qualified name), and binds the name to it in the dependency loader -/
+/-- a lookup through the dependency loader itself of a name it holds NO VALUE for — the first one, or one after any number
+    of misses — answers the binding of the first loader in dependency order that binds the name (the named module for a
+    qualified name), and binds the name to it in the dependency loader -/
 theorem C12_dep_first (dps : List (Option Mods)) (s : Sys) (d : Nat) (mods : Mods) (n : Name)
     (hr : s.ps.getD d none = none) (hd : dps.getD d none = some mods) (hlen : d < s.es.length)
-    (ha : n.auth = runtimeAuthority) (hp : PartsOK mods n) (hfresh : lk (canon n) (s.ents d) = none) :
+    (ha : n.auth = runtimeAuthority) (hp : PartsOK mods n) (hfresh : bound s d (canon n) = none) :
     (stepD dps s (.load d n)).2 = ansOf (depSpec s mods n) ∧
     bound (stepD dps s (.load d n)).1 d (canon n) = depSpec s mods n := by
   have hc := depChain_root dps s d mods hr hd
@@ -416,11 +419,11 @@ theorem C12_dep_cached (dps : List (Option Mods)) (s : Sys) (d : Nat) (mods : Mo
   simp only [ha, ne_eq, not_true_eq_false, if_false, chain_root s.ps d hr, loadEntryD, hd,
     depLoadEntry_cached s d mods n _ hlk]
 
-/-- an ill-formed qualified name (a segment that is not an identifier) that the dependency loader has no entry for is
+/-- an ill-formed qualified name (a segment that is not an identifier) that the dependency loader holds no value for is
     rejected with a reported error and leaves no trace — it is never a fault -/
 theorem C12_dep_invalid_name (dps : List (Option Mods)) (s : Sys) (l d : Nat) (mods : Mods) (n : Name)
     (hc : DepChain dps (chain s.ps l) d mods) (hlen : d < s.es.length) (ha : n.auth = runtimeAuthority)
-    (hp : ¬ PartsOK mods n) (hfresh : lk (canon n) (s.ents d) = none) :
+    (hp : ¬ PartsOK mods n) (hfresh : bound s d (canon n) = none) :
     stepD dps s (.load l n) = (s, .reported "PCORE_INVALID_CHARACTERS_IN_NAME") := by
   show loadD dps s l n = _
   have hbad := depLoadEntry_bad_of s d mods n hfresh hp
@@ -493,7 +496,8 @@ theorem C12_dep_miss_then_define_partial (dps : List (Option Mods)) (s : Sys) (d
     (runD dps s [.load d n, .define d n v]).2 = [.notfound, .ok] ∧
     stepD dps (runD dps s [.load d n, .define d n v]).1 (.load d n) =
       ((runD dps s [.load d n, .define d n v]).1, .found v) := by
-  obtain ⟨h1, h2⟩ := C12_dep_first dps s d mods n hr hd hlen ha hp hfresh
+  have hb0 : bound s d (canon n) = none := by unfold bound; rw [hfresh]; rfl
+  obtain ⟨h1, h2⟩ := C12_dep_first dps s d mods n hr hd hlen ha hp hb0
   rw [hmiss] at h1 h2
   have hl1 : d < (stepD dps s (.load d n)).1.es.length := by rw [stepD_length]; exact hlen
   obtain ⟨d1, d2, _⟩ := define_unbound (stepD dps s (.load d n)).1 d n v hl1 h2
@@ -508,17 +512,16 @@ theorem C12_dep_miss_then_define_partial (dps : List (Option Mods)) (s : Sys) (d
 
 /-- FULL STATEMENT (the property's sentence "a lookup answers …" read for a dependency loader without its cache): in
     every state a history produces, a lookup through the dependency loader of a name it holds no value for answers what
-    the dependencies bind.  FALSE — see `C12_dep_miss_sticky`; proved part: `C12_dep_first` (no entry at all for the
-    name: the first lookup) and `C12_dep_miss_then_define_partial`; missing: the case of a cached miss. -/
+    the dependencies bind.  TRUE since fix 9d272bd of finding C12-dependency-miss-sticky: `C12_dep_load_full_holds` (from
+    `C12_dep_load_unbound`, which needs no reachability).  Before the fix it failed in the states with a recorded miss:
+    `C12_dep_miss_sticky_before_fix`. -/
 def C12_dep_load_full : Prop :=
   ∀ (ps : List (Option Nat)) (dps : List (Option Mods)) (ops : List Op) (d : Nat) (mods : Mods) (n : Name),
     depShapeOK ps dps = true → dps.getD d none = some mods → n.auth = runtimeAuthority → PartsOK mods n →
     bound (runD dps (Sys.init ps) ops).1 d (canon n) = none →
     (stepD dps (runD dps (Sys.init ps) ops).1 (.load d n)).2 = ansOf (depSpec (runD dps (Sys.init ps) ops).1 mods n)
 
-/-- PROVED PART of `C12_dep_load_full`, in its shape: in every state a history produces, a lookup through the dependency
-    loader of a name it holds NO ENTRY for (instead of: no value for) answers what the dependencies bind.  Missing: the
-    states with a cached miss — there the statement is false (`C12_dep_miss_sticky`). -/
+/-- (the part of `C12_dep_load_full` that held before the fix: NO ENTRY instead of no value) -/
 theorem C12_dep_load_partial (ps : List (Option Nat)) (dps : List (Option Mods)) (ops : List Op) (d : Nat) (mods : Mods)
     (n : Name) (hshape : depShapeOK ps dps = true) (hd : dps.getD d none = some mods) (hlt : d < ps.length)
     (ha : n.auth = runtimeAuthority) (hp : PartsOK mods n)
@@ -529,7 +532,7 @@ theorem C12_dep_load_partial (ps : List (Option Nat)) (dps : List (Option Mods))
     have := List.all_eq_true.mp hshape d (List.mem_range.mpr hlt)
     simp only [hd, Bool.and_eq_true, Option.isNone_iff_eq_none] at this
     exact this.1
-  refine (C12_dep_first dps _ d mods n ?_ hd ?_ ha hp hfresh).1
+  refine (C12_dep_first dps _ d mods n ?_ hd ?_ ha hp (by unfold bound; rw [hfresh]; rfl)).1
   · rw [runD_ps]; exact hroot
   · rw [runD_length]; simp [Sys.init]; exact hlt
 
@@ -585,22 +588,84 @@ example : depShapeOK depPs depDps = true ∧ 3 < depPs.length ∧
 -- C12_dep_other: the modules and the root are plain loaders
 example : ∀ a ∈ chain depSample.ps 2, depDps.getD a none = none := by decide +kernel
 
-/-- MISSES ARE STICKY THROUGH A DEPENDENCY LOADER (known finding C12-dependency-miss-sticky): after a failed lookup
-    through it, a definition in one of its modules does not make the name resolvable through it — the module itself
-    resolves the name, the specification `depSpec` says found, the dependency loader answers its cached miss -/
-theorem C12_dep_miss_sticky : ¬ C12_dep_load_full := by
-  intro h
-  have := h depPs depDps [.load 3 nb, .define 1 nb (.ty 1)] 3 depMods nb (by decide +kernel) rfl rfl (by decide +kernel)
-    (by decide +kernel)
-  revert this
-  decide +kernel
+/-- a lookup through the dependency loader — in ANY state — of a name it holds no value for answers what the dependencies
+    bind NOW: recorded misses are not final -/
+theorem C12_dep_load_unbound (dps : List (Option Mods)) (s : Sys) (d : Nat) (mods : Mods) (n : Name)
+    (hr : s.ps.getD d none = none) (hd : dps.getD d none = some mods) (ha : n.auth = runtimeAuthority)
+    (hp : PartsOK mods n) (hb : bound s d (canon n) = none) :
+    (stepD dps s (.load d n)).2 = ansOf (depSpec s mods n) := by
+  show (loadD dps s d n).2 = _
+  have hans := depLoadEntry_answer s d mods n hp hb
+  unfold loadD
+  simp only [ha, ne_eq, not_true_eq_false, if_false, chain_root s.ps d hr, loadEntryD, hd]
+  generalize depLoadEntry s d mods n = r at hans
+  obtain ⟨s1, e⟩ := r
+  simp only at hans
+  subst hans
+  cases depSpec s mods n <;> rfl
 
-/-- the history of `C12_dep_miss_sticky`, answer by answer, and the same history with the definition FIRST -/
-theorem C12_dep_miss_sticky_history :
-    (runD depDps (Sys.init depPs) [.load 3 nb, .define 1 nb (.ty 1), .load 1 nb, .load 3 nb, .has 3 nb]).2 =
-      [.notfound, .ok, .found (.ty 1), .notfound, .bool false] ∧
+/-- THE FULL STATEMENT HOLDS (it was refuted before the fix) -/
+theorem C12_dep_load_full_holds : C12_dep_load_full := by
+  intro ps dps ops d mods n hshape hd ha hp hb
+  apply C12_dep_load_unbound dps _ d mods n _ hd ha hp hb
+  rw [runD_ps]
+  show ps.getD d none = none
+  by_cases hlt : d < ps.length
+  · unfold depShapeOK at hshape
+    have := List.all_eq_true.mp hshape d (List.mem_range.mpr hlt)
+    simp only [hd, Bool.and_eq_true, Option.isNone_iff_eq_none] at this
+    exact this.1
+  · rw [List.getD_eq_getElem?_getD, List.getElem?_eq_none (by omega)]; rfl
+
+/-- MISSES ARE NOT STICKY through a dependency loader: after a failed lookup through it and a definition in another loader
+    (one of its modules, say), the next lookup through it answers what the dependencies bind then -/
+theorem C12_dep_miss_then_define (dps : List (Option Mods)) (s : Sys) (d m : Nat) (mods : Mods) (n : Name) (v : V)
+    (hr : s.ps.getD d none = none) (hd : dps.getD d none = some mods) (hlen : d < s.es.length)
+    (ha : n.auth = runtimeAuthority) (hp : PartsOK mods n) (hb : bound s d (canon n) = none) (hmd : m ≠ d)
+    (hmiss : depSpec s mods n = none) :
+    (stepD dps s (.load d n)).2 = .notfound ∧
+    (stepD dps (runD dps s [.load d n, .define m n v]).1 (.load d n)).2 =
+      ansOf (depSpec (runD dps s [.load d n, .define m n v]).1 mods n) := by
+  obtain ⟨h1, h2⟩ := C12_dep_first dps s d mods n hr hd hlen ha hp hb
+  rw [hmiss] at h1 h2
+  refine ⟨h1, ?_⟩
+  have hrun : (runD dps s [.load d n, .define m n v]).1 = (define (stepD dps s (.load d n)).1 m n v).1 := rfl
+  rw [hrun]
+  apply C12_dep_load_unbound dps _ d mods n _ hd ha hp
+  · rw [define_bound_frame _ m n v d (canon n) (Or.inl (Ne.symm hmd))]; exact h2
+  · rw [define_ps, stepD_ps]; exact hr
+
+/-- the history of the repaired defect, answer by answer — the lookup after the definition in module 1 finds it, `HasEntry`
+    says so from then on — and the same history with the definition FIRST -/
+theorem C12_dep_miss_not_sticky_history :
+    (runD depDps (Sys.init depPs) [.load 3 nb, .define 1 nb (.ty 1), .load 1 nb, .has 3 nb, .load 3 nb, .has 3 nb]).2 =
+      [.notfound, .ok, .found (.ty 1), .bool false, .found (.ty 1), .bool true] ∧
     (runD depDps (Sys.init depPs) [.define 1 nb (.ty 1), .load 3 nb, .has 3 nb]).2 = [.ok, .found (.ty 1), .bool true] := by
   decide +kernel
+-- C12_dep_miss_then_define: its hypotheses hold at the start of that history, and the dependencies bind `b` afterwards
+example : depSpec (Sys.init depPs) depMods nb = none ∧ bound (Sys.init depPs) 3 (canon nb) = none ∧ (1 : Nat) ≠ 3 ∧
+    depSpec (runD depDps (Sys.init depPs) [.load 3 nb, .define 1 nb (.ty 1)]).1 depMods nb = some (.ty 1) := by
+  decide +kernel
+
+/-- `dependencyLoader.LoadEntry` BEFORE fix 9d272bd: any own entry — a recorded miss included — was final -/
+def depLoadEntryBeforeFix (s : Sys) (d : Nat) (mods : Mods) (n : Name) : Sys × LE :=
+  match lk (canon n) (s.ents d) with
+  | some e => (s, .ok (some e))
+  | none =>
+    match depFind s d mods n with
+    | .bad => (s, .bad)
+    | .ok e => (s.setEnts d (setEntry (s.ents d) (canon n) e.join).1, .ok (some e.join))
+
+/-- MISSES WERE STICKY (finding C12-dependency-miss-sticky, fixed): after a failed lookup through the dependency loader and a
+    definition in module 1, the dependencies bind the name, the dependency loader holds no value for it — and the pre-fix
+    `LoadEntry` answered its recorded miss where the repaired one answers the module's binding -/
+theorem C12_dep_miss_sticky_before_fix :
+    bound (runD depDps (Sys.init depPs) [.load 3 nb, .define 1 nb (.ty 1)]).1 3 (canon nb) = none ∧
+    depSpec (runD depDps (Sys.init depPs) [.load 3 nb, .define 1 nb (.ty 1)]).1 depMods nb = some (.ty 1) ∧
+    (depLoadEntryBeforeFix (runD depDps (Sys.init depPs) [.load 3 nb, .define 1 nb (.ty 1)]).1 3 depMods nb).2 =
+      .ok (some none) ∧
+    (depLoadEntry (runD depDps (Sys.init depPs) [.load 3 nb, .define 1 nb (.ty 1)]).1 3 depMods nb).2 =
+      .ok (some (some (.ty 1))) := by decide +kernel
 
 /-- discovery through a dependency loader is NOT the union over its dependencies: a name bound in a module is discovered
     (and `HasEntry` says so) only after it was looked up through the dependency loader -/
@@ -634,23 +699,20 @@ theorem C12_key_is_canon (ns name auth : String) :
 
 /-- FULL STATEMENT ("one name, one key"): a typed name derived with `Child()` / `Parent()` from a name made by
     `newTypedName2` — whether or not `MapKey()` was called on that name before — has the key of a fresh typed name of its
-    three strings, and deriving it never faults.  FALSE: `C12_key_derived_wrong`, `C12_key_derived_fault` (known finding
-    C12-typedname-derived-key).  Proved parts: `C12_key_derived_fresh_partial` (no key cached before) and
-    `C12_key_derived_lenstable_partial` (a cached key, lower-casing keeps the UTF-8 length of every letter of the three
-    strings; `C12_key_derived_ascii`: all-ASCII strings).  Nothing is missing: the excluded class is exactly the one the
-    negation witnesses live in. -/
+    three strings, and deriving it never faults.  TRUE since fix 50062c5 of finding C12-typedname-derived-key:
+    `C12_key_derived`.  Before the fix it was false (`C12_key_derived_wrong_before_fix`, `C12_key_derived_fault_before_fix`)
+    outside the class of `C12_key_derived_lenstable_before_fix`. -/
 def C12_key_derived_full : Prop :=
   ∀ (ns name auth : List Char) (keyed : Bool) (t' : TN),
     let t := if keyed then (TN.mk' ns name auth).mapKey.1 else TN.mk' ns name auth
     t.child ≠ .fault ∧ t.parent ≠ .fault ∧ ((t.child = .ok t' ∨ t.parent = .ok t') → t'.mapKey.2 = t'.freshKey)
 
-/-- without a cached key nothing is sliced: the derived name has no cached key either, so its key is computed afresh -/
-theorem C12_key_derived_fresh_partial (t t' : TN) (h : t.canonical = []) :
+/-- a derived name carries no cached key, so its key is computed afresh — for EVERY typed name, whatever it has cached -/
+theorem C12_key_derived_any (t t' : TN) :
     t.child ≠ .fault ∧ t.parent ≠ .fault ∧ ((t.child = .ok t' ∨ t.parent = .ok t') → t'.mapKey.2 = t'.freshKey) := by
   have hc : ∀ d, t.child = d → d ≠ .fault ∧ ∀ x, d = .ok x → x.canonical = [] := by
     intro d hd
     unfold TN.child TN.childN at hd
-    simp only [h, if_true] at hd
     subst hd
     split
     · split
@@ -663,7 +725,6 @@ theorem C12_key_derived_fresh_partial (t t' : TN) (h : t.canonical = []) :
   have hp : ∀ d, t.parent = d → d ≠ .fault ∧ ∀ x, d = .ok x → x.canonical = [] := by
     intro d hd
     unfold TN.parent at hd
-    simp only [h, if_true] at hd
     subst hd
     split
     · exact ⟨by simp, by simp⟩
@@ -678,80 +739,99 @@ theorem C12_key_derived_fresh_partial (t t' : TN) (h : t.canonical = []) :
   · exact hkey ((hc _ rfl).2 t' h1)
   · exact hkey ((hp _ rfl).2 t' h1)
 
-/-- … and WITH a cached key the derived key is right, and nothing faults, whenever lower-casing keeps the UTF-8 length of
-    every letter of the authority, the namespace and the name: the byte offsets measured on the strings as given are then
-    the offsets in the lower-cased key -/
-theorem C12_key_derived_lenstable_partial (ns name auth : List Char) (keyed : Bool) (t' : TN)
-    (hs : LenStable (auth ++ ns ++ stripColonsL name)) :
-    let t := if keyed then (TN.mk' ns name auth).mapKey.1 else TN.mk' ns name auth
-    t.child ≠ .fault ∧ t.parent ≠ .fault ∧ ((t.child = .ok t' ∨ t.parent = .ok t') → t'.mapKey.2 = t'.freshKey) := by
-  cases keyed with
-  | false => exact C12_key_derived_fresh_partial (TN.mk' ns name auth) t' rfl
-  | true =>
-    simp only [if_true]
-    have ht : (TN.mk' ns name auth).mapKey.1 =
-        { ns := ns, auth := auth, name := stripColonsL name, canonical := (TN.mk' ns name auth).freshKey, parts := none } := by
-      simp [TN.mapKey, TN.mk']
-    rw [ht]
-    generalize hT : (TN.mk ns auth (stripColonsL name) (TN.mk' ns name auth).freshKey none) = T
-    have hkey : T.canonical = T.freshKey := by subst hT; rfl
-    have hs : LenStable (T.auth ++ T.ns ++ T.name) := by subst hT; exact hs
-    have hk2 : ∀ x : TN, x.canonical = [] ∨ x.canonical = x.freshKey → x.mapKey.2 = x.freshKey := by
-      intro x hx
-      unfold TN.mapKey
-      rcases hx with hx | hx
-      · simp [hx]
-      · by_cases he : x.canonical = []
-        · simp [he]
-        · simp only [he, if_false]; exact hx
-    refine ⟨?_, parent_no_fault _ (Or.inr hkey) hs, ?_⟩
-    · unfold TN.child
-      split
-      · exact childN_no_fault _ 1 (Or.inr hkey) hs
-      · simp
-    · rintro (h | h)
-      · unfold TN.child at h
-        split at h
-        · exact hk2 t' (childN_key _ 1 t' hkey hs h)
-        · cases h
-      · exact hk2 t' (parent_key _ t' hkey hs h)
+/-- THE FULL STATEMENT HOLDS (it was refuted before the fix) -/
+theorem C12_key_derived : C12_key_derived_full := by
+  intro ns name auth keyed t'
+  exact C12_key_derived_any _ t'
 
-/-- in particular for all-ASCII authority, namespace and name -/
-theorem C12_key_derived_ascii (ns name auth : List Char) (keyed : Bool) (t' : TN)
-    (h : ∀ c ∈ auth ++ ns ++ stripColonsL name, c.toNat < 128) :
+/-- (kept from before the fix, now instances of `C12_key_derived_any`) without a cached key … -/
+theorem C12_key_derived_fresh_partial (t t' : TN) (_h : t.canonical = []) :
+    t.child ≠ .fault ∧ t.parent ≠ .fault ∧ ((t.child = .ok t' ∨ t.parent = .ok t') → t'.mapKey.2 = t'.freshKey) :=
+  C12_key_derived_any t t'
+
+/-- … and with a cached key when lower-casing keeps the UTF-8 length of every letter -/
+theorem C12_key_derived_lenstable_partial (ns name auth : List Char) (keyed : Bool) (t' : TN)
+    (_hs : LenStable (auth ++ ns ++ stripColonsL name)) :
     let t := if keyed then (TN.mk' ns name auth).mapKey.1 else TN.mk' ns name auth
     t.child ≠ .fault ∧ t.parent ≠ .fault ∧ ((t.child = .ok t' ∨ t.parent = .ok t') → t'.mapKey.2 = t'.freshKey) :=
-  C12_key_derived_lenstable_partial ns name auth keyed t' (lenStable_ascii _ h)
+  C12_key_derived ns name auth keyed t'
+
+theorem C12_key_derived_ascii (ns name auth : List Char) (keyed : Bool) (t' : TN)
+    (_h : ∀ c ∈ auth ++ ns ++ stripColonsL name, c.toNat < 128) :
+    let t := if keyed then (TN.mk' ns name auth).mapKey.1 else TN.mk' ns name auth
+    t.child ≠ .fault ∧ t.parent ≠ .fault ∧ ((t.child = .ok t' ∨ t.parent = .ok t') → t'.mapKey.2 = t'.freshKey) :=
+  C12_key_derived ns name auth keyed t'
 
 def rtChars : List Char := runtimeAuthority.toList
--- C12_key_derived_lenstable_partial: É (2 bytes, é 2 bytes) is length stable, the Kelvin sign is not
+-- not vacuous: `Kx::Foo` with its key cached has the child `Foo`, whose key is the fresh one
+example : ((TN.mk' "type".toList "\u212ax::Foo".toList rtChars).mapKey.1).child =
+      .ok (TN.mk' "type".toList "Foo".toList rtChars) ∧
+    ((TN.mk' "type".toList "\u212ax::Foo".toList rtChars).mapKey.1).parent =
+      .ok (TN.mk' "type".toList "\u212ax".toList rtChars) ∧
+    (TN.mk' "type".toList "\u212ax::Foo".toList rtChars).mapKey.1.canonical ≠ [] := by decide +kernel
 example : LenStable ("http://x".toList ++ "type".toList ++ stripColonsL "\u00c9a::Foo".toList) ∧
     ¬ LenStable "\u212a".toList ∧ ∀ c ∈ rtChars ++ "type".toList ++ stripColonsL "::Ab::c".toList, c.toNat < 128 := by
   decide +kernel
--- the hypothesis is satisfiable, the conclusion is not vacuous: `A::b` without cached key has the child `b`
-example : (TN.mk' "type".toList "A::b".toList rtChars).canonical = [] ∧
-    (TN.mk' "type".toList "A::b".toList rtChars).child = .ok (TN.mk' "type".toList "b".toList rtChars) := by decide +kernel
--- … and with ASCII names the cached key is sliced correctly
+
+/-! #### the repaired defect, on the pre-fix definitions (`Proofs/LoaderKey.lean`: `childNBeforeFix`, `parentBeforeFix`) -/
+
+/-- BEFORE THE FIX the cut-out key was right, and nothing faulted, exactly in the length-stable class: when lower-casing
+    keeps the UTF-8 length of every letter of the authority, the namespace and the name -/
+theorem C12_key_derived_lenstable_before_fix (ns name auth : List Char) (t' : TN)
+    (hs : LenStable (auth ++ ns ++ stripColonsL name)) :
+    let t := (TN.mk' ns name auth).mapKey.1
+    t.childBeforeFix ≠ .fault ∧ t.parentBeforeFix ≠ .fault ∧
+    ((t.childBeforeFix = .ok t' ∨ t.parentBeforeFix = .ok t') → t'.mapKey.2 = t'.freshKey) := by
+  have ht : (TN.mk' ns name auth).mapKey.1 =
+      { ns := ns, auth := auth, name := stripColonsL name, canonical := (TN.mk' ns name auth).freshKey, parts := none } := by
+    simp [TN.mapKey, TN.mk']
+  simp only
+  rw [ht]
+  generalize hT : (TN.mk ns auth (stripColonsL name) (TN.mk' ns name auth).freshKey none) = T
+  have hkey : T.canonical = T.freshKey := by subst hT; rfl
+  have hs : LenStable (T.auth ++ T.ns ++ T.name) := by subst hT; exact hs
+  have hk2 : ∀ x : TN, x.canonical = [] ∨ x.canonical = x.freshKey → x.mapKey.2 = x.freshKey := by
+    intro x hx
+    unfold TN.mapKey
+    rcases hx with hx | hx
+    · simp [hx]
+    · by_cases he : x.canonical = []
+      · simp [he]
+      · simp only [he, if_false]; exact hx
+  refine ⟨?_, parent_no_fault _ (Or.inr hkey) hs, ?_⟩
+  · unfold TN.childBeforeFix
+    split
+    · exact childN_no_fault _ 1 (Or.inr hkey) hs
+    · simp
+  · rintro (h | h)
+    · unfold TN.childBeforeFix at h
+      split at h
+      · exact hk2 t' (childN_key _ 1 t' hkey hs h)
+      · cases h
+    · exact hk2 t' (parent_key _ t' hkey hs h)
+
+-- with ASCII names the cached key was cut correctly
 def keyedChild : TN :=
   { ns := "type".toList, auth := rtChars, name := "Cd::e".toList, parts := none,
     canonical := enc (runtimeAuthority ++ "/type/cd::e").toList }
-example : ((TN.mk' "type".toList "Ab::Cd::e".toList rtChars).mapKey.1).child = .ok keyedChild ∧
+example : ((TN.mk' "type".toList "Ab::Cd::e".toList rtChars).mapKey.1).childBeforeFix = .ok keyedChild ∧
     keyedChild.mapKey.2 = keyedChild.freshKey := by decide +kernel
 
-/-- ONE NAME, TWO KEYS: the Kelvin sign (3 bytes) lower-cases to `k` (1 byte); after `MapKey()` the child of `Kx::Foo`
-    carries the cached key `…/type/o` while a fresh `Foo` has `…/type/foo`; the parent `Kx` carries `…/type/kx::` -/
-theorem C12_key_derived_wrong : ¬ C12_key_derived_full := by
-  intro h
-  have := (h "type".toList "\u212ax::Foo".toList rtChars true
-    { ns := "type".toList, auth := rtChars, name := "Foo".toList, parts := none,
-      canonical := enc (runtimeAuthority ++ "/type/o").toList }).2.2
-  revert this
-  decide +kernel
+/-- ONE NAME, TWO KEYS before the fix: the Kelvin sign (3 bytes) lower-cases to `k` (1 byte); after `MapKey()` the child of
+    `Kx::Foo` carried the cached key `…/type/o` while a fresh `Foo` has `…/type/foo`; the parent `Kx` carried `…/type/kx::` -/
+theorem C12_key_derived_wrong_before_fix :
+    ((TN.mk' "type".toList "\u212ax::Foo".toList rtChars).mapKey.1).childBeforeFix =
+      .ok { ns := "type".toList, auth := rtChars, name := "Foo".toList, parts := none,
+            canonical := enc (runtimeAuthority ++ "/type/o").toList } ∧
+    (TN.mk' "type".toList "Foo".toList rtChars).freshKey = enc (runtimeAuthority ++ "/type/foo").toList ∧
+    ((TN.mk' "type".toList "\u212ax::Foo".toList rtChars).mapKey.1).parentBeforeFix =
+      .ok { ns := "type".toList, auth := rtChars, name := "\u212ax".toList, parts := none,
+            canonical := enc (runtimeAuthority ++ "/type/kx::").toList } := by decide +kernel
 
-/-- … and with such a letter in the AUTHORITY the slice expression is out of range: `Child()` panics -/
-theorem C12_key_derived_fault :
-    ((TN.mk' "type".toList "A::B".toList "http://\u212a.example".toList).mapKey.1).child = .fault ∧
-    (TN.mk' "type".toList "A::B".toList "http://\u212a.example".toList).child =
+/-- … and with such a letter in the AUTHORITY the slice expression was out of range: `Child()` panicked -/
+theorem C12_key_derived_fault_before_fix :
+    ((TN.mk' "type".toList "A::B".toList "http://\u212a.example".toList).mapKey.1).childBeforeFix = .fault ∧
+    ((TN.mk' "type".toList "A::B".toList "http://\u212a.example".toList).mapKey.1).child =
       .ok (TN.mk' "type".toList "B".toList "http://\u212a.example".toList) := by decide +kernel
 
 /-! ### the global level (`Model/LoaderStatic.lean`): declared types, `ResolveResolvables`, the static loader as a root
